@@ -142,6 +142,10 @@ def general_queries(t):
         "Select(ds, lambda e: (lambda e: e.pt + 1)(First(e.jets)))",
         "Select(ds, lambda e: (lambda e, b: Count(Where(e.tracks, lambda e: e.pt > b)))(First(e.jets), e.met))",
         "Select(ds, lambda x: (lambda x: Select(x.tracks, lambda t: t.pt + x.pt))(First(x.jets)))",
+        # keyword-called lambdas (left as calls) whose parameter names also occur in a substituted value
+        "Select(Select(ds, lambda e: (lambda a, b: a - b)(e.met, b=1)), lambda v: (lambda a, b: a * b)(v, b=v + 1))",
+        "Select(Select(Select(ds, lambda e: (lambda a, b: a - b)(e.met, b=Count(e.jets))), lambda v: v + 2), lambda w: (lambda a, b: a * 10 + b)(w + w, b=3 if 0 < 1 else w))",
+        "Where(Select(ds, lambda e: (lambda a, b=2: a - b)(e.met)), lambda v: (lambda a, b=5: a > b)(v))",
     ]
     out += [(s, "hand") for s in extra]
     out += packaging_chains()
